@@ -55,6 +55,7 @@ impl Printer for RecPrinter
 
 pub fn parse_case(text : &str) -> PlanCase
 {
+    { let mut t = match NAMES.lock() { Ok(g) => g, Err(p) => p.into_inner() }; t.clear(); }
     let mut c = PlanCase { nleaves : 0, rules : vec![], missing : vec![], failing : vec![], policies : 8, clean : false, scope : false };
     for line in text.lines()
     {
@@ -83,14 +84,25 @@ pub fn parse_case(text : &str) -> PlanCase
             "policies" => c.policies = w[1].parse().unwrap(),
             "program" => c.clean = w[1] == "clean",
             "scope" => c.scope = true,
+            "name" => { let mut t = match NAMES.lock() { Ok(g) => g, Err(p) => p.into_inner() }; t.push((w[1].to_string(), w[2].to_string())); },
             _ => {},
         }
     }
     c
 }
 
-fn leaf(j : usize) -> String { format!("leaf{}", j) }
-fn target(k : usize, s : usize) -> String { format!("t{}_{}", k, s) }
+/*  file names: by default leaf<j> / t<k>_<s>; a case may rename them ("name L0 a_leaf0", "name T1.0 b_t1_0") so that
+    the byte order of the names -- which decides the order of a rule's sources and targets -- is the one the
+    counterexample's plan has */
+static NAMES : std::sync::Mutex<Vec<(String, String)>> = std::sync::Mutex::new(Vec::new());
+fn named(key : &str, default : String) -> String
+{
+    let t = match NAMES.lock() { Ok(g) => g, Err(p) => p.into_inner() };
+    for (k, v) in t.iter() { if k == key { return v.clone(); } }
+    default
+}
+fn leaf(j : usize) -> String { named(&format!("L{}", j), format!("leaf{}", j)) }
+fn target(k : usize, s : usize) -> String { named(&format!("T{}.{}", k, s), format!("t{}_{}", k, s)) }
 fn konst(k : usize, s : usize) -> String { format!("c{}_{}", k, s) }
 fn src_name(x : &Src) -> String { match x { Src::L(j) => leaf(*j), Src::P(i, s) => target(*i, *s) } }
 
@@ -410,6 +422,51 @@ pub fn run_case(c : &PlanCase) -> (Vec<(V, u64)>, u64)
                 if v.is_empty() { one_build(c, &mut sys, &leaf_text, &vec![], policy, &format!("build after reverting {} and editing {}", leaf(i), leaf(j)), false, &mut v); }
                 runs += 2;
             } }
+        }
+        if v.is_empty() && !c.clean && c.missing.is_empty() && c.failing.is_empty() && policy < 2
+        {
+            /*  a plain source file becomes the target of a new rule that makes the very same bytes: the rules that use it
+                are unchanged and their sources are byte-identical, so none of their commands may run (C02) */
+            for j in 0..c.nleaves
+            {
+                if !v.is_empty() { break; }
+                let users : Vec<usize> = (0..c.rules.len()).filter(|k| c.rules[*k].1.iter().any(|x| matches!(x, Src::L(i) if *i == j))).collect();
+                if users.is_empty() { continue; }
+                let gen_src = format!("zz_gen_src{}", j);
+                write_str_to_file(&mut sys, &gen_src, leaf_text[j].as_ref().unwrap()).unwrap();
+                let mut rules = rules_text(c, &vec![]);
+                rules.push_str(&format!("{}\n:\n{}\n:\nmycat {} {}\n:\n", leaf(j), gen_src, gen_src, leaf(j)));
+                write_str_to_file(&mut sys, "build.rules", &rules).unwrap();
+                sys.time_passes(1_000_000);
+                let log_before = sys.get_command_log().len();
+                let mut printer = RecPrinter { banners : vec![], errors : 0 };
+                sched::start(policy);
+                let r = std::panic::catch_unwind(std::panic::AssertUnwindSafe(|| build(sys.clone(), &mut printer, params())));
+                sched::stop();
+                sys.time_passes(1_000_000);
+                runs += 1;
+                match r
+                {
+                    Ok(Ok(())) =>
+                    {
+                        let log : Vec<String> = sys.get_command_log()[log_before..].to_vec();
+                        for k in users
+                        {
+                            let mine = command_lines(c, k, false).join("; ");
+                            if log.iter().any(|l| *l == mine)
+                            {
+                                v.push(V { property : "C02", what : format!("after {} became the target of a new rule producing the same bytes, the command of the unchanged rule {} ran again", leaf(j), k) });
+                            }
+                        }
+                    },
+                    Ok(Err(e)) => v.push(V { property : "C05", what : format!("build after {} became a rule's target: {}", leaf(j), e) }),
+                    Err(_) => v.push(V { property : "C05", what : format!("build after {} became a rule's target panics", leaf(j)) }),
+                }
+                /*  back to the plain file */
+                write_str_to_file(&mut sys, "build.rules", &rules_text(c, &vec![])).unwrap();
+                sys.time_passes(1_000_000);
+                if v.is_empty() { one_build(c, &mut sys, &leaf_text, &vec![], policy, &format!("build after {} became a plain file again", leaf(j)), false, &mut v); runs += 1; }
+            }
         }
         for x in v { out.push((x, policy)); }
         if !out.is_empty() { break; }
